@@ -79,9 +79,34 @@ def worklist_host(F):
     for c in cands:
         for s_ in F.hir[c]['body'].get('stmts', []) + ([F.hir[c]['body']['expr']] if F.hir[c]['body'].get('expr') else []):
             e = s_.get('e', s_) if s_.get('k') == 'Semi' else s_
-            if e.get('k') == 'Loop' and count_loops(e) >= 4:
+            if e.get('k') == 'Loop' and count_loops(e) + sum(count_loops(F.hir[g]['body']) for g in local_callees_of(F, e, home)) >= 4:
                 return c
     return None
+
+
+def local_callees_of(F, node, home):
+    """functions written in file `home` that are called (directly) inside the HIR node"""
+    from heval import file_of, norm_path
+    if not hasattr(F, '_norm_hir'):
+        F._norm_hir = {}
+        for k in F.hir:
+            F._norm_hir.setdefault(norm_path(k), k)
+    out = []
+
+    def walk(n):
+        if isinstance(n, dict):
+            c = n.get('callee')
+            if c:
+                q = c if c in F.hir else F._norm_hir.get(norm_path(c))
+                if q and q not in out and file_of(F, q) == home and '{closure' not in q:
+                    out.append(q)
+            for v in n.values():
+                walk(v)
+        elif isinstance(n, list):
+            for v in n:
+                walk(v)
+    walk(node)
+    return out
 
 
 def inner_loops(F, host=None):
@@ -104,14 +129,20 @@ def inner_loops(F, host=None):
     pre = []
     post = []
     stmts = list(body['stmts']) + ([body['expr']] if body.get('expr') else [])
+    post_stmts = []
     for s in stmts:
         e = s.get('e', s) if s.get('k') == 'Semi' else s
         if e.get('k') == 'Loop' and outer is None:
             outer = e
             continue
+        if outer is not None and s is not body.get('expr'):
+            post_stmts.append(s)
         if s.get('k') == 'Let':
             continue
         (pre if outer is None else post).append(e)
+    if any(s.get('k') == 'Let' for s in post_stmts):
+        # what follows the closure introduces locals of its own: evaluate it as one block, not statement by statement
+        post = [{'k': 'Block', 'l': post_stmts[0].get('l'), 'stmts': post_stmts, 'expr': body.get('expr')}]
     inner = []
 
     def walk(n):
@@ -125,6 +156,36 @@ def inner_loops(F, host=None):
             for v in n:
                 walk(v)
     walk(outer)
+    # worklist loops that were moved into helpers (`roots.drain_funcs(module)`): (function, loop node, parameter environment)
+    from heval import file_of
+    home = file_of(F, host)
+    F._edges_helper_loops = []
+    for g in local_callees_of(F, outer, home):
+        gh = F.hir[g]
+        genv = {}
+        for prm in gh['params']:
+            ty = prm.get('ty') or ''
+            if prm.get('k') != 'Bind':
+                continue
+            if 'module::Module' in ty:
+                genv[prm['id']] = sym('module')
+            elif 'Roots' in ty:
+                genv[prm['id']] = sym('stack')
+        found = []
+
+        def walk2(n):
+            if isinstance(n, dict):
+                if n.get('k') == 'Loop':
+                    found.append(n)
+                    return
+                for v in n.values():
+                    walk2(v)
+            elif isinstance(n, list):
+                for v in n:
+                    walk2(v)
+        walk2(gh['body'])
+        for n in found:
+            F._edges_helper_loops.append((g, n, genv))
     return mod_id, stack_id, pre, outer, inner, post
 
 
@@ -228,10 +289,19 @@ def run(ctx):
                  inline=lambda p: not (p in prim or 'dfs_in_order' in p))
     ev = Evaluator(F, pol)
     loops_by_kind = {}
+    where_of = {}
     for n in inner:
         k = popped_kind(F, n, kinds)
         if k:
             loops_by_kind[k] = n
+    for g, n, genv in getattr(F, '_edges_helper_loops', []):
+        try:
+            k = popped_kind(F, n, kinds)
+        except (KeyError, TypeError):
+            k = None
+        if k and k not in loops_by_kind:
+            loops_by_kind[k] = n
+            where_of[k] = (g, genv)
     for kind in sorted(tracked):
         short = kind.split('::')[-1]
         cut_hits = []
@@ -247,7 +317,10 @@ def run(ctx):
             continue
         node = loops_by_kind[kind]
         try:
-            worlds = ev.run_node(host, node, env)
+            if kind in where_of:
+                worlds = ev.run_node(where_of[kind][0], node, where_of[kind][1])
+            else:
+                worlds = ev.run_node(host, node, env)
         except EvalError as e:
             res.error('worklist loop for %s not analysable: %s' % (short, e))
             continue
@@ -332,7 +405,8 @@ def run(ctx):
                 for e in w.trace:
                     if e['kind'] == 'call' and e['callee'].endswith('dfs_in_order'):
                         okk = True
-            inst = [i for i in F.insts_of('ir::traversals::dfs_in_order') if 'UsedVisitor' in ' '.join(F.instances[i]['args'])]
+            vt = gc_visitor_type(F)
+            inst = [i for i in F.insts_of('ir::traversals::dfs_in_order') if vt and vt in ' '.join(F.instances[i]['args'])]
             if okk and inst:
                 res.ok(key, {'position': short + show_path(path), 'delegated_to': 'dfs_in_order::<UsedVisitor>'})
             else:
@@ -341,6 +415,21 @@ def run(ctx):
     check_roots(F, res, ev, env, pre, post, tracked, prefix=prefix_stmts(F), host=host, prim=prim)
     res.exhaustive = True
     return res
+
+
+def gc_visitor_hooks(F):
+    """hooks of the visitor that the GC closure runs over function bodies: the `ir::Visitor` impl written next to Used::new"""
+    from heval import file_of
+    home = file_of(F, UN)
+    return [p for p in F.hir if re.match(r'^<[\w:]+(<.*?>)? as ir::Visitor', p) and file_of(F, p) == home and '{closure' not in p]
+
+
+def gc_visitor_type(F):
+    hs = gc_visitor_hooks(F)
+    if not hs:
+        return None
+    m = re.match(r'^<([\w:]+)', hs[0])
+    return m.group(1) if m else None
 
 
 def check_hooks(F, res, ev, tracked):
